@@ -54,6 +54,7 @@ var c11Other = []c11Kind{
 	{"neg", "pre", []string{"-"}, lvPolarity}, {"pos", "pre", []string{"+"}, lvPolarity},
 	{".count()", "post", []string{".", "count", "(", ")"}, lvInvocation},
 	{".given", "post", []string{".", "given"}, lvInvocation},
+	{".Patient", "post", []string{".", "Patient"}, lvInvocation},
 	{".not()", "post", []string{".", "not", "(", ")"}, lvInvocation},
 	{"is", "post", []string{"is", "Integer"}, lvType},
 	{"as", "post", []string{"as", "System", ".", "String"}, lvType},
@@ -138,7 +139,7 @@ func c11Render(n *c11Node, full bool, leafNo *int) []string {
 	}
 	wrap := func(c *c11Node, need bool) []string {
 		t := c11Render(c, full, leafNo)
-		if c.k != nil && (full || need) {
+		if c.k != nil && (full || need) || c.k == nil && full && c11WrapLeaves {
 			return append(append([]string{"("}, t...), ")")
 		}
 		return t
@@ -181,6 +182,9 @@ func c11Render(n *c11Node, full bool, leafNo *int) []string {
 	}
 	return out
 }
+
+// c11WrapLeaves makes the full rendering parenthesise the leaves (terms) as well.
+var c11WrapLeaves bool
 
 func c11LeafTokens(l string) []string {
 	switch l {
@@ -342,7 +346,7 @@ func init() {
 	decorations := []struct{ name, s string }{{"space", " "}, {"newline", "\n"}, {"tab", "\t"}, {"block-comment", "/* c */"}, {"line-comment", "// c\n"}, {"nothing", ""}}
 	core.Register(&core.Check{
 		ID: "C11",
-		Rule: "all expression trees with <=3 operator nodes over 22 binary operator tokens (all 13 precedence levels), polarity, invocation, indexer, is/as, function-argument and parenthesised positions (quick; thorough adds all trees with 4 operator nodes over one representative per level); each tree is rendered minimally parenthesised (harness's own precedence table) and fully parenthesised: both compile or both fail, identical AST dumps, identical evaluation on 2 inputs; all trees with <=2 nodes x 6 token-gap decorations applied to all gaps and to each single gap; x 52 trailing tokens; Expression.String(); an operand-order table evaluated against hand-written results; non-trivial = distinct (tree, rendering, outcome)",
+		Rule: "all expression trees with <=3 operator nodes over 22 binary operator tokens (all 13 precedence levels), polarity, invocation, indexer, is/as, function-argument and parenthesised positions (quick; thorough adds all trees with 4 operator nodes over one representative per level); each tree is rendered minimally parenthesised (harness's own precedence table), fully parenthesised, and fully parenthesised including the leaf terms: both compile or both fail, identical AST dumps, identical evaluation on 2 inputs; all trees with <=2 nodes x 6 token-gap decorations applied to all gaps and to each single gap; x 52 trailing tokens; Expression.String(); an operand-order table evaluated against hand-written results; non-trivial = distinct (tree, rendering, outcome)",
 		Assumptions: []string{"the precedence table (13 levels, left associative) in checks/c11.go was transcribed from the FHIRPath N1 grammar", "AST equality is judged on the reflective dump of the private expression tree including implementation function names"},
 		Subs: func(tier string) []core.Sub {
 			tr := c11Build(tier)
@@ -383,6 +387,21 @@ func init() {
 					if strings.Join(m.evs, "\x00") != strings.Join(f.evs, "\x00") {
 						w["minimal_eval"], w["full_eval"] = m.evs, f.evs
 						r.Fail("renderings|evaluation-differs|levels="+c11Levels(t), w)
+					}
+					// third rendering: the leaves (terms) parenthesised as well
+					c := 0
+					c11WrapLeaves = true
+					leafS := c11Join(c11Render(t, true, &c), sp)
+					c11WrapLeaves = false
+					l := c11Compile(r, leafS, true)
+					w["full_with_leaves"], w["full_with_leaves_outcome"] = leafS, l.desc
+					if l.pan != nil {
+						r.Fail("renderings|"+l.pan.Key(), w)
+					} else if l.ok != m.ok {
+						r.Fail(fmt.Sprintf("renderings|only-one-compiles|root=%s|leaves-parenthesised=%v", t.k.name, l.ok), w)
+					} else if strings.Join(m.evs, "\x00") != strings.Join(l.evs, "\x00") {
+						w["minimal_eval"], w["full_with_leaves_eval"] = m.evs, l.evs
+						r.Fail("renderings|evaluation-differs-with-parenthesised-leaves|levels="+c11Levels(t), w)
 					}
 					if m.str != minS || f.str != fullS {
 						r.Fail("string()-is-not-the-source", core.W{"source": minS, "String()": m.str})
